@@ -1,3 +1,199 @@
 // harnesses mounted as child module of agdb/src/db/db_value_index.rs
 #[allow(unused_imports)]
 use super::*;
+
+use crate::verif_support::ok;
+
+// Layout of the 16-byte value index as documented by the property text
+// ("16-byte value index with inline small values"): byte 15 = type (high
+// nibble) | inline size (low nibble); bytes 0..size = inline value, or bytes
+// 0..8 = little-endian storage index when size == 0.
+
+fn c12_same_except_last(a: &[u8; 16], b: &[u8; 16]) -> bool {
+    let mut i = 0;
+    let mut same = true;
+    while i < 15 {
+        if a[i] != b[i] {
+            same = false;
+        }
+        i += 1;
+    }
+    same
+}
+
+//@ id=C12 tier=quick timeout=300 bounds="index: all 2^128 bit patterns; type: all u8" desc="set_type/get_type round trip (low 4 bits kept), leaves inline size and payload bytes untouched" kernel="DbValueIndex::set_type,DbValueIndex::get_type,DbValueIndex::size,DbValueIndex::data"
+#[kani::proof]
+#[kani::unwind(17)]
+fn c12_index_set_type_roundtrip() {
+    let raw: [u8; 16] = kani::any();
+    let mut idx = DbValueIndex { value: raw };
+    let t: u8 = kani::any();
+    let size_before = idx.size();
+    assert!(size_before == raw[15] & 0x0f, "size() is the low nibble of byte 15");
+    assert!(idx.get_type() == raw[15] >> 4, "get_type() is the high nibble of byte 15");
+    idx.set_type(t);
+    assert!(idx.get_type() == t & 0x0f, "get_type after set_type");
+    assert!(idx.size() == size_before, "set_type must not change the inline size");
+    let after = idx.data();
+    assert!(c12_same_except_last(&raw, &after), "set_type must not touch payload bytes");
+    assert!(after[15] == ((t & 0x0f) << 4) | (raw[15] & 0x0f), "byte 15 layout");
+    kani::cover!(t == 9 && size_before == 15, "largest type with largest size");
+    kani::cover!(t > 15, "type wider than a nibble explored");
+    kani::cover!(true, "end of harness reachable");
+}
+
+//@ id=C12 tier=quick timeout=300 bounds="value length 0..=17 (symbolic bytes); type 1..=9; index starts as new()+set_type" desc="set_value succeeds exactly for len<=15, then size()==len, value()==bytes, is_value(), type kept; for len>15 returns false and changes nothing" kernel="DbValueIndex::set_value,DbValueIndex::value,DbValueIndex::size,DbValueIndex::is_value,DbValueIndex::new"
+#[kani::proof]
+#[kani::stub(std::fmt::format, crate::verif_support::fmt_stub)]
+#[kani::stub(crate::DbError::new, crate::verif_support::dberror_new_stub)]
+#[kani::unwind(19)]
+fn c12_index_set_value_every_length() {
+    let t: u8 = kani::any();
+    kani::assume(t >= 1 && t <= 9);
+    let n: usize = kani::any();
+    kani::assume(n <= 17);
+    let data: [u8; 17] = kani::any();
+    let mut idx = DbValueIndex::new();
+    assert!(idx.data() == [0u8; 16], "new() is all zero");
+    assert!(idx.is_value() && idx.size() == 0 && idx.index() == 0 && idx.get_type() == 0, "new() state");
+    idx.set_type(t);
+    let before = idx.data();
+    let stored = idx.set_value(&data[..n]);
+    assert!(stored == (n <= 15), "inline boundary is 15 bytes");
+    if stored {
+        assert!(idx.size() as usize == n, "size() after set_value");
+        assert!(idx.get_type() == t, "set_value must keep the type");
+        assert!(idx.is_value(), "inline value must report is_value()");
+        let v = idx.value();
+        assert!(v.len() == n, "value() length");
+        let mut i = 0;
+        while i < 15 {
+            if i < n {
+                assert!(v[i] == data[i], "value() byte");
+            }
+            i += 1;
+        }
+        // serialized form is the raw 16 bytes and deserializes to the same index
+        let bytes = idx.serialize();
+        assert!(bytes.len() == 16 && idx.serialized_size() == 16, "serialized size");
+        let back = ok(DbValueIndex::deserialize(&bytes));
+        assert!(back.data() == idx.data(), "serialize/deserialize round trip");
+        std::mem::forget(bytes);
+    } else {
+        assert!(idx.data() == before, "failed set_value must not modify the index");
+    }
+    kani::cover!(n == 0 && stored, "empty inline value");
+    kani::cover!(n == 15 && stored, "largest inline value");
+    kani::cover!(n == 16 && !stored, "smallest out-of-line value");
+    kani::cover!(n == 17, "length 17");
+    kani::cover!(true, "end of harness reachable");
+}
+
+//@ id=C12 tier=quick timeout=300 bounds="starting index: all 2^128 bit patterns; storage index: all u64" desc="set_index/index round trip, clears inline size, keeps type, is_value() false unless index 0" kernel="DbValueIndex::set_index,DbValueIndex::index,DbValueIndex::is_value,DbValueIndex::size"
+#[kani::proof]
+#[kani::unwind(17)]
+fn c12_index_set_index_roundtrip() {
+    let raw: [u8; 16] = kani::any();
+    let mut idx = DbValueIndex { value: raw };
+    let i: u64 = kani::any();
+    let t = idx.get_type();
+    idx.set_index(i);
+    assert!(idx.index() == i, "index() after set_index");
+    assert!(idx.size() == 0, "set_index clears inline size");
+    assert!(idx.get_type() == t, "set_index keeps the type");
+    assert!(idx.is_value() == (i == 0), "an index entry is not a value (except index 0)");
+    assert!(idx.value().len() == 0, "no inline bytes after set_index");
+    let after = idx.data();
+    let le = i.to_le_bytes();
+    let mut k = 0;
+    while k < 8 {
+        assert!(after[k] == le[k], "index stored little endian in bytes 0..8");
+        k += 1;
+    }
+    while k < 15 {
+        assert!(after[k] == raw[k], "bytes 8..15 untouched");
+        k += 1;
+    }
+    kani::cover!(i == u64::MAX, "max index");
+    kani::cover!(i == 0, "index zero");
+    kani::cover!(raw[15] & 0x0f == 15, "size was 15 before");
+    kani::cover!(true, "end of harness reachable");
+}
+
+//@ id=C12 tier=quick timeout=300 bounds="index: all 2^128 bit patterns" desc="is_value(), size(), value(), index(), get_type(), data(), serialize agree with the documented byte layout for every bit pattern" kernel="DbValueIndex::is_value,DbValueIndex::value,DbValueIndex::index,DbValueIndex::size,DbValueIndex::get_type,DbValueIndex::serialize,DbValueIndex::deserialize"
+#[kani::proof]
+#[kani::stub(std::fmt::format, crate::verif_support::fmt_stub)]
+#[kani::stub(crate::DbError::new, crate::verif_support::dberror_new_stub)]
+#[kani::unwind(17)]
+fn c12_index_accessors_consistent() {
+    let raw: [u8; 16] = kani::any();
+    let idx = DbValueIndex { value: raw };
+    let size = (raw[15] & 0x0f) as usize;
+    let mut le = [0u8; 8];
+    let mut k = 0;
+    while k < 8 {
+        le[k] = raw[k];
+        k += 1;
+    }
+    let index = u64::from_le_bytes(le);
+    assert!(idx.size() as usize == size, "size()");
+    assert!(idx.get_type() == raw[15] >> 4, "get_type()");
+    assert!(idx.index() == index, "index()");
+    assert!(idx.is_value() == (size != 0 || index == 0), "is_value()");
+    let v = idx.value();
+    assert!(v.len() == size, "value() length");
+    let mut k = 0;
+    while k < 15 {
+        if k < size {
+            assert!(v[k] == raw[k], "value() byte");
+        }
+        k += 1;
+    }
+    assert!(idx.data() == raw, "data()");
+    let bytes = idx.serialize();
+    assert!(bytes.len() == 16, "serialize length");
+    let mut k = 0;
+    while k < 16 {
+        assert!(bytes[k] == raw[k], "serialize byte");
+        k += 1;
+    }
+    let back = ok(DbValueIndex::deserialize(&bytes));
+    assert!(back == idx, "deserialize(serialize(x)) == x");
+    assert!(DbValueIndex::serialized_size_static() == 16 && idx.serialized_size() == 16, "serialized size");
+    kani::cover!(size == 0 && index != 0, "storage index entry");
+    kani::cover!(size == 0 && index == 0, "empty inline value");
+    kani::cover!(size == 15, "full inline value");
+    kani::cover!(true, "end of harness reachable");
+    std::mem::forget(bytes);
+}
+
+//@ id=C07 tier=quick timeout=300 bounds="buffer length 0..=18, arbitrary bytes" desc="DbValueIndex::deserialize never panics: Err iff fewer than 16 bytes, otherwise the first 16 bytes" kernel="DbValueIndex::deserialize"
+#[kani::proof]
+#[kani::stub(std::fmt::format, crate::verif_support::fmt_stub)]
+#[kani::stub(crate::DbError::new, crate::verif_support::dberror_new_stub)]
+#[kani::unwind(19)]
+fn c07_value_index_deserialize_arbitrary() {
+    let n: usize = kani::any();
+    kani::assume(n <= 18);
+    let buf: [u8; 18] = kani::any();
+    let r = DbValueIndex::deserialize(&buf[..n]);
+    match r {
+        Ok(idx) => {
+            assert!(n >= 16, "Ok needs at least 16 bytes");
+            let d = idx.data();
+            let mut k = 0;
+            while k < 16 {
+                assert!(d[k] == buf[k], "deserialized byte");
+                k += 1;
+            }
+        }
+        Err(e) => {
+            assert!(n < 16, "Err only for short input");
+            std::mem::forget(e);
+        }
+    }
+    kani::cover!(n == 15, "one byte short");
+    kani::cover!(n == 16, "exact");
+    kani::cover!(n == 18, "longer than needed");
+    kani::cover!(true, "end of harness reachable");
+}
